@@ -12,17 +12,12 @@
    <Type>_<k> and <Type>_<k>_<Xtor> are not injective. *)
 From Coq Require Import List ZArith NArith String Ascii Bool Lia Permutation.
 From SCC Require Import Base.Sexp Lang.AxSyn Model.ParMoves Model.Backend Model.X86 Model.A64 Model.RV
-  Sem.X86Wf Sem.A64Wf Sem.RVWf
+  Sem.X86Wf Sem.A64Wf Sem.RVWf Sem.LabelGuard
   Proof.LabelStrings Proof.LabelGen Proof.LabelsX86 Proof.LabelsA64 Proof.LabelsRV.
 Import ListNotations.
 Local Open Scope string_scope.
 Local Open Scope list_scope.
 
-Definition all_true (_ : string) : bool := true.
-Definition guard_types (ds : list def) : bool := prog_names_ok ty_ok all_true ds.
-Definition guard_xtors (ds : list def) : bool := prog_names_ok all_true xtor_ok ds.
-Definition labels_guard (p : prog) : bool := guard_types (pdefs p) || guard_xtors (pdefs p).
-Definition calls_guard (p : prog) : bool := prog_calls_ok (pdefs p).
 
 Section Generic.
 Context {Code Temp : Type} (B : backend Code Temp) (cdefs crefs : Code -> list string).
@@ -174,8 +169,6 @@ Definition collide_prog : prog :=
          (Switch v (Decl ("Aa", 0%N))
             [(("Bx_2_Cy", 0%N), [], Switch v (Decl ("Aa_1_Bx", 0%N)) [(("Cy", 0%N), [], Call ("main", 0%N) [])])])]
       [] 0%N.
-Definition unguarded_labels_guard (p : prog) : bool :=       (* the guard without its last clause *)
-  prog_names_ok all_true all_true (pdefs p).
 Theorem compile_labels_unique_refuted :
   unguarded_labels_guard collide_prog = true /\ calls_guard collide_prog = true /\
   exists c n lc', compile x86_backend collide_prog 0 = Ok (c, n, lc') /\ ~ NoDup (LabelGen.defs xdefs c).
